@@ -150,13 +150,15 @@ def sim_round_tucker(r, s, I, hasU, rmax):
         if hasU[i]:
             s[i] = min(s[i], I[i])
         r[i + 1] = min(r[i] * s[i], r[i + 1])
+    tall = False
     for mu in range(N - 1, -1, -1):
         q = min(r[mu] * r[mu + 1], s[mu])
+        tall = tall or I[mu] > q         # the factor handed to truncated_svd has more rows than columns
         s[mu] = max(1, min(rmax[mu] if rmax[mu] is not None else INF, min(I[mu], q)))
         hasU[mu] = True
         if mu > 0:
             r[mu] = min(r[mu], s[mu] * r[mu + 1])
-    return r, s, hasU
+    return r, s, hasU, tall
 
 
 def sim_round_tt_kept(r, s, I, hasU, rmax):
@@ -273,9 +275,9 @@ def batch_index(X, key):
                     return ("err",)
                 sel = [i % B for i in bk]
             parts = [dense_index(X[b], rest) for b in sel]
-            if not parts:
-                dense_index(X[0], rest)
-                return ("either", None)          # empty selection along the batch mode: not a stack any more
+            if not parts:                        # empty selection along the batch mode: refused, or an empty stack
+                one = dense_index(X[0], rest)
+                return ("either", np.zeros((0,) + one.shape))
             val = np.stack(parts)
     except KeyError_:
         return ("err",)
@@ -311,6 +313,8 @@ UNSUPPORTED = {
     "sample": lambda t, u: tn.sample(t, 2), "hadamard_sum": lambda t, u: tn.hadamard_sum([t, u]),
     "optimize": lambda t, u: tn.optimize(t, lambda x: tn.normsq(x), verbose=False, max_iter=2),
 }
+
+DOT_FAMILY = ("dot", "norm", "normsq", "dist", "relative_error", "rmse", "r_squared", "eq", "m_dot", "m_norm")
 
 # operations built on the supported ones: may raise, but if they return, every element must be right
 EITHER = {
@@ -450,7 +454,8 @@ class Prop:
                     continue
                 mk("construct", {"B": B, "N": N, "shape": "x".join(map(str, shape)), "limits": kw_kind, "algorithm": alg,
                                  "tie": info["tie"], "null_kept": info["null_kept"], "truncating": info["truncating"],
-                                 "lowrank": lowrank}, X=X, kw=kw, algorithm=alg)
+                                 "lowrank": lowrank, "kf": self._kf_round(info, alg, "ranks_tt" in kw, "ranks_tucker" in kw)},
+                   X=X, kw=kw, algorithm=alg)
                 return
 
         for kw_kind, n in (("none", 40), ("tt", 70), ("tucker", 50), ("both", 40), ("eps", 10)):
@@ -531,10 +536,10 @@ class Prop:
                 info = self._round_info(a, op, rmax)
                 if info["tie"] and attempt < 19:
                     continue
+                alg = "eig" if rng.random() < 0.2 and op != "round" else "svd"
                 mk(op, {"rmax": "none" if rmax is None else ("int" if isinstance(rmax, int) else "list"), "tie": info["tie"],
-                        "null_kept": info["null_kept"], "truncating": info["truncating"]}, a=a, rmax=rmax,
-                   algorithm="eig" if rng.random() < 0.2 and op != "round" else "svd")
-                cases[-1]["tags"]["algorithm"] = cases[-1]["algorithm"]
+                        "null_kept": info["null_kept"], "truncating": info["truncating"], "algorithm": alg,
+                        "kf": self._kf_round(info, alg, op == "round_tt", op == "round_tucker")}, a=a, rmax=rmax, algorithm=alg)
                 return
 
         for op, n in (("round_tt", 110), ("round_tucker", 80), ("round", 10)):
@@ -584,7 +589,8 @@ class Prop:
         for name in names:
             for fm in (("tt", "cp") if quick else ("tt", "cp", "tt-tucker", "cp-tucker")):
                 N = rng.randint(2, 3); B = rng.randint(1, 3); shape = rshape(N, 2, 3)
-                mk("unsupported", {"name": name}, a=rand_batch_json(rng, B, shape, NAMED[fm](N), maxr=2),
+                fam = "dot" if name in DOT_FAMILY else "partial" if name in ("partial", "laplacian") else "guarded"
+                mk("unsupported", {"name": name, "family": fam, "kf": "" if fam == "guarded" else "no-guard-" + fam}, a=rand_batch_json(rng, B, shape, NAMED[fm](N), maxr=2),
                    b=rand_batch_json(rng, B, shape, NAMED[fm](N), maxr=2), name=name)
         for name in sorted(EITHER):
             for _ in range(4 if quick else 30):
@@ -674,20 +680,47 @@ class Prop:
             t["has_none"] = any(k is None for k in rest)
             if spec[0] == "ok" and spec[1] is not None:
                 t["empty"] = spec[1].size == 0
-            # class of D17: all non-batch modes integers, batch mode kept
-            last = a["modes"][-1]["kind"]
-            t["allint_keepbatch"] = bool(t["rest_all_int"] and t["bkey"] != "int")
+            B = a["B"]
+            sel = [bk % B] if isinstance(bk, int) else ([i % B for i in bk] if isinstance(bk, list) else list(range(B)[bk]))
+            t["nsel"] = len(sel)
+            anycp = any(m["kind"] == "cp" for m in a["modes"])
+            kf = ""
+            if spec[0] != "err":
+                # D17: every non-batch mode an integer: the pending factor is squeezed, never summed
+                if t["rest_all_int"] and (anycp or (t["bkey"] != "int" and len(sel) == 1)):
+                    kf = "D17"
+                # trailing integer absorbed into an emitted core: the batch selection is applied to that core twice
+                elif rest and isinstance(rest[-1], int) and not t["rest_all_int"]:
+                    n = len(sel)
+                    try:
+                        again = [list(range(n))[bk]] if isinstance(bk, int) else \
+                            ([list(range(n))[i] for i in bk] if isinstance(bk, list) else list(range(n)[bk]))
+                    except IndexError:
+                        again = None
+                    if again != list(range(n)):
+                        kf = "getitem-rebatch"
+            t["kf"] = kf
         except (KeyError_, StopIteration):
             t["bkey"] = "malformed"
         return t
+
+    @staticmethod
+    def _kf_round(info, alg, does_tt, does_tucker):
+        """class of open finding a rounding / construction case belongs to ('' = none)"""
+        if does_tucker and alg == "eig" and info["tall"]:
+            return "eig-tall-factor"
+        if does_tt and info["null_kept"]:
+            return "round-tt-null"
+        return ""
 
     def _round_info(self, a, op, rmax):
         """specification-side bookkeeping for tags: ties, truncation, kept null singular values"""
         X = dense_b(a); N = X.ndim - 1
         r, s, I, hasU = sim_repr(a)
-        tie = False; null = False; trunc = False
+        tie = False; null = False; trunc = False; tall = False
         if op == "round_tucker":
             rm = aslist(rmax, N)
+            tall = sim_round_tucker(r, s, I, hasU, rm)[3]
             for b in range(len(X)):
                 Y, t = oracle_round_tucker(X[b], rm)
                 tie = tie or t; trunc = trunc or not np.allclose(Y, X[b], atol=1e-9)
@@ -698,16 +731,16 @@ class Prop:
                 Y, ranks, t = oracle_round_tt(X[b], rm)
                 tie = tie or t; trunc = trunc or not np.allclose(Y, X[b], atol=1e-9)
                 null = null or any(kept[k] > ranks[k] for k in kept)
-        return {"tie": tie, "null_kept": null, "truncating": trunc}
+        return {"tie": tie, "null_kept": null, "truncating": trunc, "tall": tall}
 
     def _construct_info(self, X, kw):
         X = np.array(X, dtype=np.float64); N = X.ndim - 1; shape = list(X.shape[1:])
-        tie = False; null = False; trunc = False
+        tie = False; null = False; trunc = False; tall = False
         rtk = aslist(kw["ranks_tucker"], N) if "ranks_tucker" in kw else None
         rtt = aslist(kw["ranks_tt"], N - 1) if "ranks_tt" in kw else None
         r = sim_fullrank(shape); s = list(shape); hasU = [False] * N
         if rtk is not None:
-            r, s, hasU = sim_round_tucker(r, s, shape, hasU, rtk)
+            r, s, hasU, tall = sim_round_tucker(r, s, shape, hasU, rtk)
         kept = sim_round_tt_kept(r, s, shape, hasU, rtt) if rtt is not None else {}
         for b in range(len(X)):
             Y = X[b]
@@ -717,7 +750,7 @@ class Prop:
                 Y, ranks, t = oracle_round_tt(Y, rtt); tie = tie or t
                 null = null or any(kept[k] > ranks[k] for k in kept)
             trunc = trunc or not np.allclose(Y, X[b], atol=1e-9)
-        return {"tie": tie, "null_kept": null, "truncating": trunc}
+        return {"tie": tie, "null_kept": null, "truncating": trunc, "tall": tall}
 
     # ------------------------------------------------------------------ implementation
     def _scalar(self, c, kind):
